@@ -294,6 +294,20 @@ Theorem C06_uniform_group_signs :
 Proof. exact sign_roots_multi_uniform. Qed.
 Print Assumptions C06_uniform_group_signs.
 
+(* Completeness of a whole batch of generic roots: if the individual accounts of the request are of
+   one family and the distributed ones are of one family (what a wallet or a dirk account manager
+   provides), in any order and mixture, the request succeeds and returns every item's signature. *)
+Theorem C06_batch_complete :
+  forall (H : N -> N -> N) (sig : Type) (zero_sig : sig) (sign : N -> N -> sig)
+         (accs : list account) (roots : list N) (domain : N),
+    length accs = length roots ->
+    uniform (filter not_dist (combine accs roots)) ->
+    uniform (filter is_dist (combine accs roots)) ->
+    sign_roots_by_account_type H sig zero_sig (honest H sig sign) accs roots domain
+    = Ok (map (fun it => expected sig zero_sig sign (fst it) (compute_signing_root H (snd it) domain)) (combine accs roots)).
+Proof. exact sign_roots_by_account_type_complete. Qed.
+Print Assumptions C06_batch_complete.
+
 (* ------------------------------------------------------------------------------------------ *)
 (* Non-vacuity: a concrete chain with a fork, a toy hash, and requests that succeed.            *)
 
